@@ -22,7 +22,8 @@ def attach_cases():
     """full product: kind x inner content ending in a middle token x comment attached after the closer x what follows
     (later passes must never pull a group's own delimiter into another node, also once comments are attached)"""
     import itertools
-    kinds = [('(', ')'), ('[', ']'), ('case', 'end'), ('if', 'end if'), ('for', 'end loop'), ('begin', 'end')]
+    kinds = [('(', ')'), ('[', ']'), ('case', 'end'), ('if', 'end if'), ('for', 'end loop'), ('begin', 'end'),
+             ('IF', 'END\nIF'), ('foreach', 'end\tloop'), ('If', 'End  If'), ('CASE', 'END')]
     inner = ['x', 'x ,', 'x as', 'x ::', 'x :=', 'x =', 'x .', 'x , y ,', '1 ,', 'x where y', '', 'x , 1 +', 'x and']
     trail = ['', '--c\n', ' /*c*/', '/*c*/', ' --c\n', '\n--c\n', ' /*c*/ /*d*/']
     follow = ['', 'x', ', x', '; x', ' x', ' as y', ' = 1']
